@@ -63,6 +63,7 @@ def _first_diff(fa, fb):
 
 def run(drv, pid, tier, seed, configs):
     """main pass (all windows of the tier) + 'large' pass (constant-time multiscalar at >= 190 terms)."""
+    src_cfgs = list(configs) if configs else None
     configs = configs or (drv.ALLCFG + ["386"] if tier == "thorough" else drv.ALLCFG)
     if tier == "quick":
         lcfg = [c for c in configs if c == "avx2"] or configs[:1]
@@ -86,6 +87,8 @@ def run(drv, pid, tier, seed, configs):
             bins[tags] = (b, symf)
         _tool(drv, "c08an")
         box = {}
+        th0 = threading.Thread(target=lambda: box.update(source=_srcpass(drv, pid, tier, seed, src_cfgs)))
+        th0.start()
         th = threading.Thread(target=lambda: box.update(large=_pass(drv, pid, tier, seed, lcfg, lsig, "large", bins) if lcfg else None))
         th.start()
         # the 32-bit platform binaries are traced on the core window list only (see cmd/c08: core32), with fewer secrets
@@ -99,15 +102,137 @@ def run(drv, pid, tier, seed, configs):
         main = _pass(drv, pid, tier, seed, mcfg, QUICK_SIGMAS if tier == "quick" else THOROUGH_SIGMAS, tier, bins) if mcfg else None
         th.join()
         th2.join()
+        th0.join()
+        source = box.get("source")
+        if not isinstance(source, dict) or source.get("broken"):
+            drv.log("BROKEN " + str((source or {}).get("broken", "source-level pass failed")))
+            return 2
         large = box.get("large")
         core32 = box.get("core32")
         if c32 and not isinstance(core32, dict):
             return 2
         if main is None:  # only 32-bit configurations requested
             main, core32 = core32, None
-        return _finish(drv, pid, tier, seed, main, large, core32)
+        return _finish(drv, pid, tier, seed, main, large, core32, source)
     finally:
         shutil.rmtree(scratch0, ignore_errors=True)
+
+
+SRC_CONFIGS = ["avx2", "sse2", "purego", "u32", "386", "386f64"]
+
+
+def _srcpass(drv, pid, tier, seed, configs=None):
+    """Source-level pass: the c08 binary built with -cover -covermode=atomic over the library packages (in a scratch copy
+    of the tree with the overlay materialised - go's cover tool cannot read overlay files) runs EVERY window for every
+    secret of the alphabet between coverage.ClearCounters and coverage.WriteCounters; the execution count of every source
+    basic block of the library must be identical for all secrets.  This sees a secret-dependent `if` that the amd64
+    compiler turns into a conditional move (invisible in the machine trace of that build, a jump on other platforms) and
+    costs no valgrind run, so it covers all six configurations and the complete window list in both tiers.  It does not
+    see assembly, memory indices or short-circuit operators inside one statement: those are the machine-trace passes."""
+    t0 = time.time()
+    configs = [c for c in (configs or SRC_CONFIGS) if c in SRC_CONFIGS]
+    sigmas = list(range(17)) if tier == "quick" else THOROUGH_SIGMAS
+    scratch = tempfile.mkdtemp(prefix="verif-c08-src-")
+    notes, viols, per_cfg = [], [], {}
+    try:
+        W = os.path.join(scratch, "repo")
+        subprocess.run(["rsync", "-a", "--exclude", ".git", drv.REPO.rstrip("/") + "/", W + "/"], check=True)
+        ov, _ = drv.gen_overlay()
+        for dst, src in json.load(open(ov))["Replace"].items():
+            d = os.path.join(W, os.path.relpath(dst, drv.REPO))
+            os.makedirs(os.path.dirname(d), exist_ok=True)
+            shutil.copy(src, d)
+        lp = subprocess.run(["go", "list", "./..."], cwd=W, env=drv.ENV, capture_output=True, text=True)
+        pkgs = [q for q in lp.stdout.split() if "/internal/verif" not in q and "/internal/testhelpers" not in q and "/internal/toolchain" not in q and "/internal/asm" not in q]
+        if lp.returncode != 0 or not pkgs:
+            return dict(skipped="go list failed in the scratch copy: " + lp.stderr[-300:], viols=[], notes=["source-level pass skipped (go list failed)"], exhaustive=False)
+        bins = {}
+
+        def bld(tags):
+            benv, t = drv.ENV, tags
+            if "@" in tags:
+                t, arch = tags.split("@")
+                benv = dict(drv.ENV, GOARCH=arch, CGO_ENABLED="0")
+            out = os.path.join(scratch, "c08cov-" + tags.replace(",", "_").replace("@", "_"))
+            p = subprocess.run(["go", "build", "-trimpath", "-tags", t, "-cover", "-covermode=atomic", "-coverpkg=" + ",".join(pkgs + [drv.MOD + "/internal/verif/cmd/c08"]), "-o", out, "./internal/verif/cmd/c08"],
+                               cwd=W, env=benv, capture_output=True, text=True)
+            return tags, (out if p.returncode == 0 else None), p.stderr[-600:]
+        tagsets = sorted({drv.CONFIGS[c][0] for c in configs})
+        with cf.ThreadPoolExecutor(max_workers=len(tagsets)) as ex:
+            for tags, out, err in ex.map(bld, tagsets):
+                if out is None:
+                    notes.append("source-level pass: build with tags %s failed against this tree (pass skipped for its configurations): %s" % (tags, err.strip().splitlines()[-1] if err.strip() else ""))
+                bins[tags] = out
+        configs = [c for c in configs if bins.get(drv.CONFIGS[c][0])]
+        if not configs:
+            return dict(skipped="no build", viols=[], notes=notes, exhaustive=False)
+        names = [l.split(" ", 1)[1] for l in subprocess.run([bins[drv.CONFIGS[configs[0]][0]], "cov", "-list"], capture_output=True, text=True, env=drv.ENV).stdout.strip().splitlines()]
+
+        def one(job, dump=None):
+            c, s_ = job
+            tags, renv = drv.CONFIGS[c]
+            env = dict(drv.ENV, **renv)
+            env.update(C08_SIGMA=str(s_), GOMAXPROCS="1")
+            env.pop("GOCOVERDIR", None)
+            if dump:
+                env["C08_COVDUMP"] = "%d:%s" % dump
+            try:
+                p = subprocess.run([bins[tags], "cov"], env=env, capture_output=True, text=True, timeout=1800)
+            except subprocess.TimeoutExpired:
+                return job, None, "timeout"
+            if p.returncode != 0:
+                return job, None, (p.stderr or p.stdout)[-400:]
+            h = [l.split()[2] for l in p.stdout.splitlines() if l.startswith("cov ")]
+            return job, h, None
+        jobs = [(c, s_) for c in configs for s_ in sigmas + [sigmas[0]]]
+        res = {}
+        with cf.ThreadPoolExecutor(max_workers=os.cpu_count() or 16) as ex:
+            for (c, s_), h, err in ex.map(one, jobs):
+                if h is None or len(h) != len(names):
+                    return dict(broken="source-level pass: %s sigma=%d: %s" % (c, s_, err or "%d windows reported, %d expected" % (len(h or []), len(names))))
+                res.setdefault(c, {}).setdefault(s_, []).append(h)
+        exhaustive = True
+        total = 0
+        for c in configs:
+            base, base2 = res[c][sigmas[0]]
+            noisy = [k for k in range(len(names)) if base[k] != base2[k]]
+            if noisy:
+                notes.append("source-level pass %s: windows %s differ between two runs with the SAME secret; excluded" % (c, noisy))
+                exhaustive = False
+            first = {}
+            for s_ in sigmas[1:]:
+                h = res[c][s_][0]
+                for k in range(len(names)):
+                    if k not in noisy and h[k] != base[k]:
+                        first.setdefault(k, s_)
+            per_cfg[c] = dict(windows=len(names), secrets=len(sigmas), differing_windows=len(first), noisy_windows=len(noisy))
+            total += len(names) * len(sigmas)
+            for k, s_ in sorted(first.items()):
+                # confirm with a fresh pair, then name the differing source blocks
+                (_, ha, _), (_, hb, _) = one((c, sigmas[0])), one((c, s_))
+                if ha is None or hb is None or ha[k] != base[k] or hb[k] == ha[k]:
+                    notes.append("source-level pass %s: difference in window %d (%s) for sigma %d did not reproduce; treated as noise" % (c, k, names[k], s_))
+                    exhaustive = False
+                    continue
+                blocks = "(blocks not located)"
+                try:
+                    txt = {}
+                    for tag, sg in (("a", sigmas[0]), ("b", s_)):
+                        dd = os.path.join(scratch, "dump-%s-%d-%s" % (c, k, tag))
+                        os.makedirs(dd, exist_ok=True)
+                        one((c, sg), dump=(k, dd))
+                        of = dd + ".txt"
+                        subprocess.run(["go", "tool", "covdata", "textfmt", "-i=" + dd, "-o", of], cwd=W, env=drv.ENV, capture_output=True)
+                        txt[tag] = dict(l.rsplit(" ", 1) for l in open(of).read().splitlines()[1:])
+                    d = [(b, txt["a"].get(b), txt["b"].get(b)) for b in sorted(set(txt["a"]) | set(txt["b"])) if txt["a"].get(b) != txt["b"].get(b)]
+                    blocks = "; ".join("%s count %s vs %s" % (b.replace(drv.MOD + "/", ""), x, y) for b, x, y in d[:4]) + (" ... (%d blocks differ)" % len(d) if len(d) > 4 else "")
+                except Exception as e:  # naming the blocks is a convenience; the verdict is the counter difference
+                    blocks = "(blocks not located: %r)" % e
+                viols.append(dict(sub="source-blocks", index=k, key="not-constant-time(source)/" + names[k], config=c, noreplay=True, window=names[k], sigma_a=sigmas[0], sigma_b=s_, tier="source",
+                                  desc="window %r: execution counts of the library's source basic blocks differ between secret sigma=%d and sigma=%d: %s" % (names[k], sigmas[0], s_, blocks)))
+        return dict(names=names, per_config=per_cfg, total_eval=total, viols=viols, notes=notes, exhaustive=exhaustive, sigmas=sigmas, configs=configs, wall_s=round(time.time() - t0, 1))
+    finally:
+        shutil.rmtree(scratch, ignore_errors=True)
 
 
 def _pass(drv, pid, tier, seed, configs, sigmas, wtier, bins):
@@ -241,7 +366,7 @@ def _pass(drv, pid, tier, seed, configs, sigmas, wtier, bins):
                 samples=[dict(window=names[k], config=configs[0], **res[configs[0]][sigmas[0]][0][k]) for k in range(0, nwin, 7)], wall_s=round(time.time() - t0, 1))
 
 
-def _finish(drv, pid, tier, seed, main, large, core32=None):
+def _finish(drv, pid, tier, seed, main, large, core32=None, source=None):
     if large is None:  # only 32-bit configurations were requested: no large pass
         large = dict(viols=[], notes=["large pass skipped (32-bit configurations only)"], total_eval=0, names=[], sigmas=[0], samples=[], exhaustive=True, cov_cfg={}, configs=[], wall_s=0)
     t_end = time.time()
@@ -253,9 +378,15 @@ def _finish(drv, pid, tier, seed, main, large, core32=None):
     if core32:
         viols += [dict(v, tier="core32") for v in core32["viols"]]
         notes += core32["notes"]
+    if source:
+        viols += source["viols"]
+        notes += source["notes"]
     nwin, nsig = len(main["names"]), len(main["sigmas"])
     cov = dict(
-        evaluations=main["total_eval"] + large["total_eval"],
+        source_level_pass=(dict(what="library built with -cover -covermode=atomic; per window and secret the execution count of every source basic block (runtime/coverage counters) must be identical for all secrets",
+                                windows=len(source.get("names", [])), secrets=len(source.get("sigmas", [])), configurations=source.get("configs", []), per_config=source.get("per_config", {}),
+                                evaluations=source.get("total_eval", 0), exhaustive=source.get("exhaustive", False), skipped=source.get("skipped"), wall_s=source.get("wall_s")) if source else None),
+        evaluations=main["total_eval"] + large["total_eval"] + (source.get("total_eval", 0) if source else 0),
         distinct_nontrivial=nwin * (nsig - 1) + len(large["names"]) * (len(large["sigmas"]) - 1), rule=meta["rule"],
         samples=main["samples"] + large["samples"], exhaustive=main["exhaustive"] and large["exhaustive"],
         windows=main["names"], large_windows=large["names"], secrets=nsig, per_config=main["cov_cfg"], large_pass=dict(per_config=large["cov_cfg"], secrets=len(large["sigmas"]), configurations=large["configs"]),
